@@ -4,7 +4,7 @@
    *_spec_failures: specification oracle applied to the IMPLEMENTATION's
                     outputs: an independent recount from the event history
                     with exact integer arithmetic (no floats, no model state). *)
-From IV Require Import Base.Word Base.F64 Base.Codes Model.Ntp Model.SenderStream Spec.SenderSpec Proofs.SenderStreamProofs.
+From IV Require Import Base.Word Base.F64 Base.Codes Model.Ntp Model.SenderStream Model.SenderChain Spec.SenderSpec Proofs.SenderStreamProofs.
 From Coq Require Import ZifyBool.
 Ltac Zify.zify_post_hook ::= Z.div_mod_to_equations.
 
@@ -152,6 +152,10 @@ Inductive caop :=
 | CABind (ssrc rate : Z)
 | CAUnbind (ssrc : Z)
 | CAWrite (ssrc now seq ts len : Z)
+| CAWriteR (ssrc now seq ts len nn nerr : Z)
+    (* round 5: a write whose NEXT WRITER (the RTPWriter handed to BindLocalStream) answers
+       (nn, nerr); nerr = 0 is a nil error, other values name the kind of non-nil error the
+       harness made it return.  CAWrite = next writer answers (0, nil) (older replay files). *)
 | CATick (now : Z) (reps : list (Z * srep)).   (* reports written, sorted by SSRC *)
 
 Definition c07api_case := (bool * list caop)%type.
@@ -161,7 +165,18 @@ Definition caop_op (c : caop) : siop :=
   | CABind s r => SIBind s r
   | CAUnbind s => SIUnbind s
   | CAWrite s now seq ts len => SIWrite s now seq ts len
+  | CAWriteR s now seq ts len _ _ => SIWrite s now seq ts len
   | CATick now _ => SITick now
+  end.
+
+(* round 5: the operation of the model WITH the next writer (Model/SenderChain.v) *)
+Definition caop_xop (c : caop) : sxop :=
+  match c with
+  | CABind s r => XBind s r
+  | CAUnbind s => XUnbind s
+  | CAWrite s now seq ts len => XWrite s now seq ts len 0 0
+  | CAWriteR s now seq ts len nn nerr => XWrite s now seq ts len nn nerr
+  | CATick now _ => XTick now
   end.
 
 Fixpoint caop_outs (l : list caop) : list (list (Z * srep)) :=
@@ -175,19 +190,26 @@ Definition keyed_eqb (a b : Z * srep) : bool := (fst a =? fst b) && srep_eqb (sn
 
 Definition c07api_model_ok (c : c07api_case) : bool :=
   let '(ul, ops) := c in
-  list_eqb (list_eqb keyed_eqb) (si_run elapsed_kernel ntp_kernel ul [] (map caop_op ops)) (caop_outs ops).
+  list_eqb (list_eqb keyed_eqb) (sx_run elapsed_kernel ntp_kernel ul [] (map caop_xop ops)) (caop_outs ops).
 
 Definition c07api_mismatches (cases : list c07api_case) : list nat :=
   find_idx (fun c => negb (c07api_model_ok c)) cases 0.
 
 (* history of one SSRC: its writes since its latest bind; None when not bound.
-   [pre] is in reverse order (latest first). *)
+   [pre] is in reverse order (latest first).
+   Round 5: "the number of RTP packets WRITTEN ON THAT STREAM" - a write belongs to the
+   history whatever the next writer of the chain answered for it (CAWriteR with nerr <> 0
+   included): the packet was written on the bound stream by the application; whether a
+   pacer / transport further down refused it is not the sender-report generator's to know
+   (RFC 3550 sender's packet count; the property text does not say "delivered"). *)
 Fixpoint proj_hist (ssrc : Z) (pre : list caop) (acc : list sop) : option (Z * list sop) :=
   match pre with
   | [] => None
   | CABind s r :: tl => if s =? ssrc then Some (r, acc) else proj_hist ssrc tl acc
   | CAUnbind s :: tl => if s =? ssrc then None else proj_hist ssrc tl acc
   | CAWrite s now seq ts len :: tl =>
+      proj_hist ssrc tl (if s =? ssrc then SRtp now seq ts len :: acc else acc)
+  | CAWriteR s now seq ts len _ _ :: tl =>
       proj_hist ssrc tl (if s =? ssrc then SRtp now seq ts len :: acc else acc)
   | CATick _ _ :: tl => proj_hist ssrc tl acc
   end.
